@@ -141,12 +141,12 @@ class Graph:
     def __init__(self, path):
         self.states, self.init, self.out = {}, [], collections.defaultdict(list)
         node_re = re.compile(r'^(-?\d+) \[label="(.*)"(,style = filled)?\]\s*;?$')
-        edge_re = re.compile(r'^(-?\d+) -> (-?\d+) \[label="([^"]*)"')
+        edge_re = re.compile(r'^(-?\d+) -> (-?\d+) \[label="((?:[^"\\]|\\.)*)"')
         for line in open(path):
             line = line.rstrip('\n')
             m = edge_re.match(line)
             if m:
-                a, b, lab = m.group(1), m.group(2), m.group(3)
+                a, b, lab = m.group(1), m.group(2), m.group(3).replace('\\"', '"').replace('\\\\', '\\')
                 if a != b or lab:
                     self.out[a].append((lab, b))
                 continue
